@@ -317,8 +317,14 @@ func (sv *ECDSASignatureVerifier) Verify(pubKey *PublicKey, msg, signature []byt
 			R, S *big.Int
 		}
 
-		if _, err := asn1.Unmarshal(signature, &esig); err != nil {
+		rest, err := asn1.Unmarshal(signature, &esig)
+		if err != nil {
 			return err
+		}
+
+		// asn1.Unmarshal stops at the end of the SEQUENCE: what follows would ride along unverified
+		if len(rest) > 0 {
+			return errors.New("ecdsa: trailing data after DER signature")
 		}
 
 		r = esig.R
